@@ -92,7 +92,10 @@ def settle(oc, ereqs, epend, sreqs, spend, wreqs, what_engine="Model/Engine.gene
                 oc.violations.append(dict(what="the generator raised (%s) on a template the rules give a meaning to" % err, **info))
             continue
         if rejected:
-            oc.stat("no_meaning_by_the_rules")     # e.g. FOR over a single word: outside the domain
+            # a FOR block whose arguments are neither a list nor a count (single word, empty value, unassigned tag
+            # without default): there is nothing to repeat the body for - the generator has to reject it too
+            oc.stat("for_without_list_or_count")
+            oc.violations.append(dict(what="the generator produced output for a FOR block that has neither a list nor a count", **info))
             continue
         for f in a["files"]:
             real = final.get(f["name"])
